@@ -137,6 +137,12 @@ def op_text(op):
         return "%s %s" % (k, hx(op[1]))
     if k == "flink":
         return "flink %s %d" % (hx(op[1]), op[2])
+    if k == "lookalike":
+        return "flink %s 1" % hx(op[1])           # for the model: a link to a live file that is not a cache object
+    if k == "movecache":
+        return "movecache"
+    if k == "rmcachedir":
+        return "rmcachedir"
     if k == "relink":
         return "relink %s %d" % (hx(op[1]), op[2])
     if k == "corrupt":
@@ -542,6 +548,7 @@ class Project:
             q = os.path.join(dd, name)
             if os.path.isfile(q) and name != "lock":
                 meta[name] = hashlib.sha256(open(q, "rb").read()).hexdigest()
+        meta["<cache directory exists>"] = str(os.path.isdir(self.cache))
         rem_modes = {}
         for d_ in rem:
             rem_modes[d_] = stat.S_IMODE(os.lstat(os.path.join(self.remote_dir, d_[:2], d_[2:])).st_mode)
@@ -729,6 +736,33 @@ def apply_op(proj, op, mstep, b3):
             proj.put("fifo", op[1])
         elif k == "flink":
             proj.put("flink", op[1], op[2])
+        elif k == "lookalike":
+            # a link whose target string ends in the right <hh>/<rest> but resolves to other bytes elsewhere
+            full = proj.abspath(op[1])
+            tail = b"ab/cdef"
+            if os.path.islink(full):
+                parts = os.readlink(full).split(b"/")
+                if len(parts) >= 2:
+                    tail = b"/".join(parts[-2:])
+            fake = os.path.join(os.fsencode(proj.base), b"fakecache", tail)
+            os.makedirs(os.path.dirname(fake), exist_ok=True)
+            with open(fake, "wb") as f:
+                f.write(b"look-alike bytes")
+            proj.remove(op[1])
+            os.makedirs(os.path.dirname(full), exist_ok=True)
+            os.symlink(fake, full)
+        elif k == "rmcachedir":
+            # as in a fresh clone: the (empty) cache directory does not exist
+            if os.path.isdir(proj.cache) and not any(os.path.isdir(os.path.join(proj.cache, x)) for x in os.listdir(proj.cache)):
+                shutil.rmtree(proj.cache)
+        elif k == "movecache":
+            new = os.path.join(proj.base, "relocated-cache-%d" % (len(proj.harness_removed) + 1))
+            os.rename(proj.cache, new)
+            proj.cache = new
+            proj.cache_mode = "abs" if proj.cache_mode == "rel" else proj.cache_mode
+            cfg = os.path.join(proj.root, ".dud", "config.yaml")
+            lines = [l for l in open(cfg).read().splitlines() if not l.startswith("cache:")]
+            open(cfg, "w").write("\n".join(lines) + "\ncache: %s\n" % new)
         elif k == "uncopy":
             full = proj.abspath(op[1])
             data = open(full, "rb").read()
@@ -829,6 +863,7 @@ def run_case(args):
             proj.write_stage(sp, st)
         proj.write_index()
         out["initial"] = proj.snapshot(b3)
+        model_dead = False
         for i, op in enumerate(list(case["ops"]) + list(case.get("tail_ops", []))):
             ms = mtrace[i] if mtrace and i < len(mtrace) and i < len(case["ops"]) else None
             before = out["steps"][-1]["snap"] if out["steps"] else out["initial"]
@@ -840,7 +875,7 @@ def run_case(args):
                         stderr=r["stderr"].decode(errors="replace")[-400:], lock=lock, race=b"DATA RACE" in r["stderr"],
                         corrupted=sorted(proj.harness_corrupted), removed=sorted(proj.harness_removed))
             out["steps"].append(step)
-            if ms is None or ms["status"] == "dead":
+            if ms is None or ms["status"] == "dead" or model_dead:
                 continue
             mok = ms["status"] == "ok"
             if not mok and op[0] not in DUD_OPS:
@@ -849,11 +884,13 @@ def run_case(args):
                 out["diffs"].append("step %d %s: model %s, implementation exit %d (%s) %s" % (
                     i, op_text(op), ms["status"], r["rc"], r["err"], step["stderr"][-200:]))
                 if not mok:
-                    break
+                    model_dead = True
                 continue
             if not mok:
-                # error predicted and observed: the state after a failed command is not predicted
-                break
+                # error predicted and observed: the state after a failed command is not predicted; the remaining
+                # operations still run on the implementation (the oracles see them), without model comparison
+                model_dead = True
+                continue
             want = set(l for l in ms["lines"])
             got = set(snap["lines"]) | set(r["lines"])
             for l in sorted(want - got):
